@@ -9,8 +9,11 @@ package http2_test
 // (valid ones and single-field corruptions), every truncation offset, broken
 // prefaces, sessions played while the client does not read (the server's
 // writer is stuck), sessions that keep sending frames on a stream whose
-// RST_STREAM is still queued behind the stuck writer, and four flood
-// macro-events. Oracle: no panic (serve
+// RST_STREAM is still queued behind the stuck writer, sessions that continue
+// after the connection has entered a graceful shutdown that is still waiting
+// for a request whose handler does not finish by itself (client GOAWAY with
+// and without an error code, or a "Connection: close" response), and four
+// flood macro-events. Oracle: no panic (serve
 // goroutine panics are caught by the package's panic hook, any other panic
 // kills the shard and is attributed through the breadcrumb), the serve loop
 // stays responsive, white-box bounds on queued control frames and handlers at
@@ -32,7 +35,7 @@ import (
 )
 
 type c16Case struct {
-	Cfg   string   `json:"cfg"`   // scheduler ("", rr, 7540, rand) + handler mode "-hw" (writes), "-hb" (blocks until cancelled), "-hi" (ignores cancellation) + "-blk" (client does not read) + "-m1" (MAX_CONCURRENT_STREAMS 1 instead of 2)
+	Cfg   string   `json:"cfg"`   // scheduler ("", rr, 7540, rand) + handler mode "-hw" (writes), "-hb" (blocks until cancelled), "-hi" (ignores cancellation), "-hc" (answers with "Connection: close", then blocks until cancelled) + "-blk" (client does not read) + "-m1" (MAX_CONCURRENT_STREAMS 1 instead of 2)
 	Pre   string   `json:"pre"`   // preface variant: ok, none, short, wrong, nosettings
 	Items []string `json:"items"` // frame templates / flood macros
 	Cut   int      `json:"cut"`   // >0: the last item is truncated to its first Cut bytes
@@ -332,7 +335,7 @@ func c16Exec(t testing.TB, w *vx.W, cs c16Case) {
 			blocked = true
 		case p == "m1":
 			o.MaxStreams = 1
-		case p == "hw" || p == "hb" || p == "hi":
+		case p == "hw" || p == "hb" || p == "hi" || p == "hc":
 			hmode = p
 		}
 	}
@@ -348,6 +351,15 @@ func c16Exec(t testing.TB, w *vx.W, cs c16Case) {
 		if hmode == "hi" {
 			<-release // a handler that ignores cancellation
 			return
+		}
+		if hmode == "hc" {
+			// the response asks for the connection to be closed (the server
+			// starts a graceful shutdown), then the handler blocks
+			rw.Header().Set("Connection", "close")
+			rw.Write([]byte("hello"))
+			if f, ok := rw.(http.Flusher); ok {
+				f.Flush()
+			}
 		}
 		<-req.Context().Done()
 	}
@@ -588,7 +600,8 @@ func TestVerif_C16(t *testing.T) {
 		blkLen := 4
 		rstLen := vx.Pick(c, 3, 4)
 		rstBlockers := vx.Pick(c, []string{"PING"}, []string{"PING", "SET"})
-		c.Rule(fmt.Sprintf("sessions over %d raw frame templates (valid frames of every type and single-field corruptions: lengths, stream ids, flags, padding, HPACK garbage, limits): (frames) valid preface+SETTINGS then every sequence of <=%d templates, item by item and as one burst followed by an immediate hang-up, handler writing / handler blocking; (truncate) every sequence of <=%d templates cut at every byte offset of its last template; (preface) no / short / wrong / split preface and missing SETTINGS before every template; (stuck-writer) every sequence of <=%d templates of a 12-template stream subset while the client does not read, for each of the four write schedulers (quick: length-4 sessions on the RFC 7540 scheduler only), then the client reads again; (queued-reset) the client stops reading, a PING (thorough: PING or SETTINGS) is answered so that the writer is blocked in a flush and every RST_STREAM the server produces stays queued, then every sequence of <=%d templates of a %d-template alphabet — requests on stream 1 accepted (open / END_STREAM / Content-Length 1) and rejected with a stream error at every stage (invalid field name in the framer, self-dependency, no :path, unparsable :path, malformed CONNECT; with and without END_STREAM), then every frame type on that stream (DATA with/without END_STREAM, trailers and repeated HEADERS, RST_STREAM, WINDOW_UPDATE 1 / 0 / overflowing, PRIORITY, PRIORITY on itself, PRIORITY_UPDATE valid / unparsable, unknown type), PING, and a second stream with DATA / WINDOW_UPDATE / RST_STREAM — with MAX_CONCURRENT_STREAMS 2 and 1 (second stream refused) on all four schedulers (length-%d sessions: after PING on the default RFC 9218 scheduler with MAX_CONCURRENT_STREAMS 2 only), then the client reads again; (floods) %d x PING / SETTINGS / HEADERS+RST_STREAM / empty CONTINUATION with reading and non-reading client on all four schedulers; each session on a fresh real server in its own synctest bubble; non-trivial = session ran to its end-of-session probe", len(names), seqLen, vx.Pick(c, 1, 2), blkLen, rstLen, len(c16ResetItems), rstLen, c16FloodN))
+		shutLen := vx.Pick(c, 1, 2)
+		c.Rule(fmt.Sprintf("sessions over %d raw frame templates (valid frames of every type and single-field corruptions: lengths, stream ids, flags, padding, HPACK garbage, limits): (frames) valid preface+SETTINGS then every sequence of <=%d templates, item by item and as one burst followed by an immediate hang-up, handler writing / handler blocking; (truncate) every sequence of <=%d templates cut at every byte offset of its last template; (preface) no / short / wrong / split preface and missing SETTINGS before every template; (stuck-writer) every sequence of <=%d templates of a 12-template stream subset while the client does not read, for each of the four write schedulers (quick: length-4 sessions on the RFC 7540 scheduler only), then the client reads again; (queued-reset) the client stops reading, a PING (thorough: PING or SETTINGS) is answered so that the writer is blocked in a flush and every RST_STREAM the server produces stays queued, then every sequence of <=%d templates of a %d-template alphabet — requests on stream 1 accepted (open / END_STREAM / Content-Length 1) and rejected with a stream error at every stage (invalid field name in the framer, self-dependency, no :path, unparsable :path, malformed CONNECT; with and without END_STREAM), then every frame type on that stream (DATA with/without END_STREAM, trailers and repeated HEADERS, RST_STREAM, WINDOW_UPDATE 1 / 0 / overflowing, PRIORITY, PRIORITY on itself, PRIORITY_UPDATE valid / unparsable, unknown type), PING, and a second stream with DATA / WINDOW_UPDATE / RST_STREAM — with MAX_CONCURRENT_STREAMS 2 and 1 (second stream refused) on all four schedulers (length-%d sessions: after PING on the default RFC 9218 scheduler with MAX_CONCURRENT_STREAMS 2 only), then the client reads again; (shutdown) a request on stream 1 (body left open / END_STREAM) whose handler blocks until cancelled / ignores cancellation / finishes at once, then a client GOAWAY (NO_ERROR / with an error code) — or no GOAWAY and a handler that answers with \"Connection: close\" and then blocks — so that the connection is in a graceful shutdown that waits for the stream (or has just completed), then every sequence of <=%d templates of the full alphabet, item by item and (<=1 template) as one burst followed by an immediate hang-up; (floods) %d x PING / SETTINGS / HEADERS+RST_STREAM / empty CONTINUATION with reading and non-reading client on all four schedulers; each session on a fresh real server in its own synctest bubble; non-trivial = session ran to its end-of-session probe", len(names), seqLen, vx.Pick(c, 1, 2), blkLen, rstLen, len(c16ResetItems), rstLen, shutLen, c16FloodN))
 		c.Assume("\"bounded time\" is 30 s of synctest fake time; a session that stops in the middle of a frame may leave the server waiting for the rest (no read timeout is configured), which counts as serving; after GOAWAY without error the server is still required to answer PING or to have closed")
 		c.Assume("panics on the serve goroutine are observed through the package's testHookOnPanic (the connection is torn down instead of the process); panics on any other goroutine kill the shard and are attributed by the driver (crash_is_violation)")
 		opts := vx.Opts{Serial: true, Crumb: true}
@@ -636,6 +649,44 @@ func TestVerif_C16(t *testing.T) {
 								return
 							}
 						}
+					}
+				}
+			}
+		}, func(w *vx.W, cs c16Case) { c16RunCase(c, w, cs) })
+		// shutdown: the connection has entered a graceful shutdown (client
+		// GOAWAY with NO_ERROR / with an error code, or a response carrying
+		// "Connection: close") while a request is in progress — with a handler
+		// that blocks until cancelled, one that ignores cancellation (the
+		// shutdown keeps waiting for the stream) or one that finishes (the
+		// shutdown completes and the close timer runs) — and the session goes
+		// on with every sequence of templates of the full alphabet.
+		vx.Enumerate(c, "shutdown", opts, func(yield0 func(c16Case) bool) {
+			yield := c15Yield(c, yield0)
+			var prefixes []c16Case
+			for _, open := range []string{"H1o", "H1"} {
+				for _, mode := range []string{"-hb", "-hi", "-hw"} {
+					for _, ga := range []string{"GOAWAY", "GOAWAYerr"} {
+						prefixes = append(prefixes, c16Case{Cfg: mode, Pre: "ok", Items: []string{open, ga}})
+					}
+				}
+				prefixes = append(prefixes, c16Case{Cfg: "-hc", Pre: "ok", Items: []string{open}})
+			}
+			for n := 0; n <= shutLen; n++ {
+				for _, p := range prefixes {
+					ok := vx.Strings(names, n, n, func(items []string) bool {
+						cs := p
+						cs.Items = append(append([]string(nil), p.Items...), items...)
+						if !yield(cs) {
+							return false
+						}
+						if n <= 1 {
+							cs.Burst = true
+							return yield(cs)
+						}
+						return true
+					})
+					if !ok {
+						return
 					}
 				}
 			}
